@@ -53,73 +53,110 @@ end vec
 
 /-! ### the edge integral of `triangle_Bfield` -/
 
-/-- `triEdgeI` as a function of the three scalar products `R·R`, `L·L`, `R·L` -/
-noncomputable def triEdgeS (r2 l2 b : ℝ) : ℝ :=
-  if (1 : ℝ) / 1000000000000 * Real.sqrt l2 < |Real.sqrt r2 + b / Real.sqrt l2| then
-    1 / Real.sqrt l2 * Real.log ((Real.sqrt (l2 + 2 * b + r2) + Real.sqrt l2 + b / Real.sqrt l2) /
-      |Real.sqrt r2 + b / Real.sqrt l2|)
-  else
-    -(1 / Real.sqrt l2) * Real.log (|Real.sqrt l2 - Real.sqrt r2| / Real.sqrt r2)
+/-- `triEdgeI` as a function of the scalar products `rr = R·R`, `nn = Rn·Rn`, `ll = L·L`,
+`rl = R·L`, `nl = Rn·L`, `xr = |R×L|²`, `xn = |Rn×L|²` -/
+noncomputable def triEdgeS (rr nn ll rl nl xr xn : ℝ) : ℝ :=
+  Real.log (if ((if √nn < √rr then xn else xr) / ll ≤ 1 / 1000000000000000000000000000000 * ll ∧ rl / √ll < 0) ∧
+      0 < nl / √ll then -(rl / √ll) / (nl / √ll)
+    else if 0 ≤ rl / √ll then (√nn + nl / √ll) / (√rr + rl / √ll)
+    else if nl / √ll < 0 then (√rr - rl / √ll) / (√nn - nl / √ll)
+    else (√nn + nl / √ll) * (√rr - rl / √ll) / ((if √nn < √rr then xn else xr) / ll)) / √ll
 
-theorem triEdgeI_eq (μ : ℝ) (R L : V3 ℝ) : letI := realNum μ
-    triEdgeI R L = triEdgeS (V3.dot R R) (V3.dot L L) (V3.dot R L) := by
-  simp only [triEdgeI, triEdgeS, sqrt_real, abs_real, log_real, lt_real, n, ofNat_real,
-    Nat.cast_ofNat, Nat.cast_one, decide_eq_true_eq]
+theorem triEdgeI_eq (μ : ℝ) (R Rn L : V3 ℝ) : letI := realNum μ
+    triEdgeI R Rn L = triEdgeS (V3.dot R R) (V3.dot Rn Rn) (V3.dot L L) (V3.dot R L) (V3.dot Rn L)
+      (V3.dot (V3.cross R L) (V3.cross R L)) (V3.dot (V3.cross Rn L) (V3.cross Rn L)) := by
+  have hx : letI := realNum μ
+      V3.dot (V3.cross (if √(V3.dot Rn Rn) < √(V3.dot R R) then Rn else R) L)
+        (V3.cross (if √(V3.dot Rn Rn) < √(V3.dot R R) then Rn else R) L) =
+      if √(V3.dot Rn Rn) < √(V3.dot R R) then V3.dot (V3.cross Rn L) (V3.cross Rn L)
+      else V3.dot (V3.cross R L) (V3.cross R L) := by
+    split_ifs <;> rfl
+  simp only [triEdgeI, triEdgeS, sqrt_real, log_real, lt_real, le_real, n, ofNat_real,
+    Nat.cast_ofNat, Nat.cast_one, Nat.cast_zero, decide_eq_true_eq, Bool.and_eq_true, hx]
 
-theorem triEdgeS_scale (c : ℝ) (hc : 0 < c) (r2 l2 b : ℝ) :
-    triEdgeS (c ^ 2 * r2) (c ^ 2 * l2) (c ^ 2 * b) = 1 / c * triEdgeS r2 l2 b := by
-  have hc' : c ≠ 0 := hc.ne'
-  have hs : ∀ x, Real.sqrt (c ^ 2 * x) = c * Real.sqrt x := fun x => by
-    rw [Real.sqrt_mul (sq_nonneg c), Real.sqrt_sq hc.le]
-  have e1 : c ^ 2 * l2 + 2 * (c ^ 2 * b) + c ^ 2 * r2 = c ^ 2 * (l2 + 2 * b + r2) := by ring
-  have e2 : c ^ 2 * b / (c * Real.sqrt l2) = c * (b / Real.sqrt l2) := by
-    rw [sq, mul_assoc, mul_div_mul_left _ _ hc', mul_div_assoc]
-  have e3 : |c * Real.sqrt r2 + c * (b / Real.sqrt l2)| = c * |Real.sqrt r2 + b / Real.sqrt l2| := by
-    rw [← mul_add, abs_mul, abs_of_pos hc]
-  have e4 : |c * Real.sqrt l2 - c * Real.sqrt r2| = c * |Real.sqrt l2 - Real.sqrt r2| := by
-    rw [← mul_sub, abs_mul, abs_of_pos hc]
-  have e5 : c * Real.sqrt (l2 + 2 * b + r2) + c * Real.sqrt l2 + c * (b / Real.sqrt l2) =
-      c * (Real.sqrt (l2 + 2 * b + r2) + Real.sqrt l2 + b / Real.sqrt l2) := by ring
-  have e6 : ((1 : ℝ) / 1000000000000 * (c * Real.sqrt l2) < c * |Real.sqrt r2 + b / Real.sqrt l2|) ↔
-      ((1 : ℝ) / 1000000000000 * Real.sqrt l2 < |Real.sqrt r2 + b / Real.sqrt l2|) := by
-    constructor <;> intro h <;> nlinarith
-  have e7 : ∀ s : ℝ, 1 / (c * s) = 1 / c * (1 / s) := fun s => by
-    rw [one_div, mul_inv, one_div, one_div]
-  unfold triEdgeS
-  simp only [hs, e1, e2, e3, e4, e5, e6, mul_div_mul_left _ _ hc', e7]
-  split_ifs <;> ring
+/-- the branch test of `triEdgeI`: the observer cannot be told from the edge in double precision
+(`rho2 ≤ 1e-30·l2`, i.e. closer than `1e-15` edge lengths to the edge line, alongside the edge
+`a < 0 < c`); there the edge integral is replaced by the finite on-edge value -/
+def triEdgeOn (rr nn ll rl nl xr xn : ℝ) : Prop :=
+  ((if √nn < √rr then xn else xr) / ll ≤ 1 / 1000000000000000000000000000000 * ll ∧ rl / √ll < 0) ∧ 0 < nl / √ll
 
-/-- the branch test of `triEdgeI` (`ind > 1e-12·l`: observer off the edge's extension, relative to
-the edge length) -/
-def triEdgeFar (r2 l2 b : ℝ) : Prop :=
-  (1 : ℝ) / 1000000000000 * Real.sqrt l2 < |Real.sqrt r2 + b / Real.sqrt l2|
+theorem triEdgeS_on (rr nn ll rl nl xr xn : ℝ) (h : triEdgeOn rr nn ll rl nl xr xn) :
+    triEdgeS rr nn ll rl nl xr xn = Real.log (-(rl / √ll) / (nl / √ll)) / √ll := by
+  unfold triEdgeOn at h
+  simp only [triEdgeS, h, and_self, if_true]
 
-theorem triEdgeS_far (r2 l2 b : ℝ) (h : triEdgeFar r2 l2 b) :
-    triEdgeS r2 l2 b = 1 / Real.sqrt l2 * Real.log ((Real.sqrt (l2 + 2 * b + r2) + Real.sqrt l2 + b / Real.sqrt l2) /
-      |Real.sqrt r2 + b / Real.sqrt l2|) := by
-  unfold triEdgeFar at h
-  simp only [triEdgeS, h, if_true]
-
-theorem triEdgeS_near (r2 l2 b : ℝ) (h : ¬ triEdgeFar r2 l2 b) :
-    triEdgeS r2 l2 b = -(1 / Real.sqrt l2) * Real.log (|Real.sqrt l2 - Real.sqrt r2| / Real.sqrt r2) := by
-  unfold triEdgeFar at h
+theorem triEdgeS_off (rr nn ll rl nl xr xn : ℝ) (h : ¬ triEdgeOn rr nn ll rl nl xr xn) :
+    triEdgeS rr nn ll rl nl xr xn =
+      Real.log (if 0 ≤ rl / √ll then (√nn + nl / √ll) / (√rr + rl / √ll)
+        else if nl / √ll < 0 then (√rr - rl / √ll) / (√nn - nl / √ll)
+        else (√nn + nl / √ll) * (√rr - rl / √ll) / ((if √nn < √rr then xn else xr) / ll)) / √ll := by
+  unfold triEdgeOn at h
   simp only [triEdgeS, h, if_false]
 
-theorem triEdgeFar_scale (c : ℝ) (hc : 0 < c) (r2 l2 b : ℝ) :
-    triEdgeFar (c ^ 2 * r2) (c ^ 2 * l2) (c ^ 2 * b) ↔ triEdgeFar r2 l2 b := by
-  have hc' : c ≠ 0 := hc.ne'
-  have hs : ∀ x, Real.sqrt (c ^ 2 * x) = c * Real.sqrt x := fun x => by
-    rw [Real.sqrt_mul (sq_nonneg c), Real.sqrt_sq hc.le]
-  have e2 : c ^ 2 * b / (c * Real.sqrt l2) = c * (b / Real.sqrt l2) := by
-    rw [sq, mul_assoc, mul_div_mul_left _ _ hc', mul_div_assoc]
-  have e3 : |c * Real.sqrt r2 + c * (b / Real.sqrt l2)| = c * |Real.sqrt r2 + b / Real.sqrt l2| := by
-    rw [← mul_add, abs_mul, abs_of_pos hc]
-  simp only [triEdgeFar, hs, e2, e3]
+section scale
+variable (c : ℝ) (hc : 0 < c)
+include hc
+
+private theorem sqrt_sq_mul (x : ℝ) : √(c ^ 2 * x) = c * √x := by
+  rw [Real.sqrt_mul (sq_nonneg c), Real.sqrt_sq hc.le]
+
+private theorem proj_scale (b l2 : ℝ) : c ^ 2 * b / (c * √l2) = c * (b / √l2) := by
+  rw [sq, mul_assoc, mul_div_mul_left _ _ hc.ne', mul_div_assoc]
+
+private theorem rho_scale (x l2 : ℝ) : c ^ 4 * x / (c ^ 2 * l2) = c ^ 2 * (x / l2) := by
+  have : c ^ 4 * x = c ^ 2 * (c ^ 2 * x) := by ring
+  rw [this, mul_div_mul_left _ _ (pow_ne_zero 2 hc.ne'), mul_div_assoc]
+
+private theorem lt_scale (x y : ℝ) : c * x < c * y ↔ x < y := mul_lt_mul_iff_right₀ hc
+private theorem neg_scale (x : ℝ) : c * x < 0 ↔ x < 0 := by
+  constructor <;> intro h <;> nlinarith
+private theorem nonneg_scale (x : ℝ) : 0 ≤ c * x ↔ 0 ≤ x := by
+  constructor <;> intro h <;> nlinarith
+private theorem pos_scale (x : ℝ) : 0 < c * x ↔ 0 < x := by
+  constructor <;> intro h <;> nlinarith
+private theorem tol_scale (x y : ℝ) :
+    c ^ 2 * x ≤ 1 / 1000000000000000000000000000000 * (c ^ 2 * y) ↔ x ≤ 1 / 1000000000000000000000000000000 * y := by
+  have h2 : 0 < c ^ 2 := by positivity
   constructor <;> intro h <;> nlinarith
 
-theorem triEdgeI_scale' (μ l : ℝ) (hl : 0 < l) (R L : V3 ℝ) : letI := realNum μ
-    triEdgeI (vs l R) (vs l L) = 1 / l * triEdgeI R L := by
-  simp only [triEdgeI_eq, dot_vs_vs, triEdgeS_scale l hl]
+theorem triEdgeOn_scale (rr nn ll rl nl xr xn : ℝ) :
+    triEdgeOn (c ^ 2 * rr) (c ^ 2 * nn) (c ^ 2 * ll) (c ^ 2 * rl) (c ^ 2 * nl) (c ^ 4 * xr) (c ^ 4 * xn) ↔
+      triEdgeOn rr nn ll rl nl xr xn := by
+  simp only [triEdgeOn, sqrt_sq_mul c hc, proj_scale c hc, lt_scale c hc, neg_scale c hc, pos_scale c hc]
+  split_ifs <;> simp only [rho_scale c hc, tol_scale c hc]
+
+theorem triEdgeS_scale (rr nn ll rl nl xr xn : ℝ) :
+    triEdgeS (c ^ 2 * rr) (c ^ 2 * nn) (c ^ 2 * ll) (c ^ 2 * rl) (c ^ 2 * nl) (c ^ 4 * xr) (c ^ 4 * xn) =
+      1 / c * triEdgeS rr nn ll rl nl xr xn := by
+  have hc' : c ≠ 0 := hc.ne'
+  have e5 : ∀ p q : ℝ, c * p + c * q = c * (p + q) := fun p q => by ring
+  have e6 : ∀ p q : ℝ, c * p - c * q = c * (p - q) := fun p q => by ring
+  have e7 : ∀ p : ℝ, -(c * p) = c * -p := fun p => by ring
+  have e8 : ∀ p q y : ℝ, c * p * (c * q) / (c ^ 2 * y) = p * q / y := fun p q y => by
+    have : c * p * (c * q) = c ^ 2 * (p * q) := by ring
+    rw [this, mul_div_mul_left _ _ (pow_ne_zero 2 hc')]
+  have e9 : ∀ P : Prop, [Decidable P] → (if P then c ^ 4 * xn else c ^ 4 * xr) = c ^ 4 * (if P then xn else xr) :=
+    fun P _ => by split_ifs <;> rfl
+  have e10 : ∀ x s : ℝ, x / (c * s) = 1 / c * (x / s) := fun x s => by
+    rw [one_div, ← div_eq_inv_mul, div_div, mul_comm s c]
+  by_cases h : triEdgeOn rr nn ll rl nl xr xn
+  · rw [triEdgeS_on _ _ _ _ _ _ _ h, triEdgeS_on _ _ _ _ _ _ _ ((triEdgeOn_scale c hc _ _ _ _ _ _ _).mpr h)]
+    simp only [sqrt_sq_mul c hc, proj_scale c hc, e7, mul_div_mul_left _ _ hc', e10]
+  · rw [triEdgeS_off _ _ _ _ _ _ _ h,
+      triEdgeS_off _ _ _ _ _ _ _ (fun h' => h ((triEdgeOn_scale c hc _ _ _ _ _ _ _).mp h'))]
+    simp only [sqrt_sq_mul c hc, proj_scale c hc, lt_scale c hc, neg_scale c hc, nonneg_scale c hc, e9,
+      rho_scale c hc, e5, e6, e8, mul_div_mul_left _ _ hc', e10]
+
+end scale
+
+theorem cross_dot_scale (μ l : ℝ) (R L : V3 ℝ) : letI := realNum μ
+    V3.dot (V3.cross (vs l R) (vs l L)) (V3.cross (vs l R) (vs l L)) =
+      l ^ 4 * V3.dot (V3.cross R L) (V3.cross R L) := by
+  simp [vs, V3.dot, V3.cross]; ring
+
+theorem triEdgeI_scale' (μ l : ℝ) (hl : 0 < l) (R Rn L : V3 ℝ) : letI := realNum μ
+    triEdgeI (vs l R) (vs l Rn) (vs l L) = 1 / l * triEdgeI R Rn L := by
+  simp only [triEdgeI_eq, dot_vs_vs, cross_dot_scale, triEdgeS_scale l hl]
 
 /-! ### solid angle -/
 
@@ -164,8 +201,10 @@ theorem triangleB_scale' (μ l : ℝ) (hl : 0 < l) (v0 v1 v2 pol x : V3 ℝ) : l
     triangleB (vs l v0) (vs l v1) (vs l v2) pol (vs l x) = triangleB v0 v1 v2 pol x := by
   have hl' : l ≠ 0 := hl.ne'
   have hll : 0 < l * l := by positivity
+  have h0 : ∀ d : ℝ, (l * l * d = 0) ↔ (d = 0) := fun d => by simp [hl']
   simp only [triangleB, vs_sub_vs, cross_vs_vs, norm_vs μ (l * l) hll, norm_vs μ l hl,
-    vd_vs_vs μ (l * l) hll.ne', triEdgeI_scale' μ l hl, solidAngle_scale' μ l hl, vs_inv_vs μ l hl']
+    vd_vs_vs μ (l * l) hll.ne', triEdgeI_scale' μ l hl, solidAngle_scale' μ l hl, vs_inv_vs μ l hl',
+    eq0_real, h0]
 
 theorem bhjmTriangle_scale' (μ l : ℝ) (hl : 0 < l) (f : Field) (v0 v1 v2 pol x : V3 ℝ) : letI := realNum μ
     bhjmTriangle f (vs l v0) (vs l v1) (vs l v2) pol (vs l x) = bhjmTriangle f v0 v1 v2 pol x := by
@@ -313,9 +352,11 @@ theorem triangleB_linear' (μ a b : ℝ) (v0 v1 v2 p1 p2 x : V3 ℝ) : letI := r
     triangleB v0 v1 v2 (vs a p1 + vs b p2) x =
       vs a (triangleB v0 v1 v2 p1 x) + vs b (triangleB v0 v1 v2 p2 x) := by
   simp only [triangleB]
-  generalize @vd ℝ (realNum μ) (V3.cross (v1 - v0) (v2 - v0)) _ = nv
-  generalize @HSub.hSub (V3 ℝ) (V3 ℝ) (V3 ℝ) _ (@vs ℝ (realNum μ) _ nv) _ = W
-  apply V3.ext' <;> simp [vs, vd, V3.dot] <;> ring
+  split_ifs
+  · apply V3.ext' <;> simp [vs, zero3, n]
+  · generalize @vd ℝ (realNum μ) (V3.cross (v1 - v0) (v2 - v0)) _ = nv
+    generalize @HSub.hSub (V3 ℝ) (V3 ℝ) (V3 ℝ) _ (@vs ℝ (realNum μ) _ nv) _ = W
+    apply V3.ext' <;> simp [vs, vd, V3.dot] <;> ring
 
 theorem bhjmTriangle_linear' (μ a b : ℝ) (f : Field) (v0 v1 v2 p1 p2 x : V3 ℝ) : letI := realNum μ
     bhjmTriangle f v0 v1 v2 (vs a p1 + vs b p2) x =
